@@ -240,6 +240,12 @@ type fsRig struct {
 
 	boundary func(r *fsRig, kind string, phase int64, path string) // every hook event, before it is processed
 
+	// strict: the rig is the only user of the store package while a call runs; a store event that
+	// names a path outside the root directory is recorded (the store reached outside its root)
+	strict  bool
+	inCall  bool
+	foreign []string
+
 	writers []*fsWriter
 	nextID  int
 }
@@ -332,7 +338,13 @@ func (r *fsRig) disarm() {
 
 // sink runs synchronously on the goroutine inside the store, under the hook mutex.
 func (r *fsRig) sink(e bs.VerifEvent) {
-	if !r.active || !strings.HasPrefix(e.Kind, "fs.") || (e.S != r.dir && filepath.Dir(e.S) != r.dir) {
+	if !r.active || !strings.HasPrefix(e.Kind, "fs.") {
+		return
+	}
+	if e.S != r.dir && filepath.Dir(e.S) != r.dir {
+		if r.strict && r.inCall && e.S != "" && e.A == 0 {
+			r.foreign = append(r.foreign, e.Kind+" "+e.S)
+		}
 		return
 	}
 	if e.A != 0 {
@@ -460,10 +472,12 @@ func (r *fsRig) begin(writer int, payload []byte, fault *fsFault) {
 	r.labels = nil
 	r.seen = map[string]int{}
 	r.faultable, r.faultIdx = 0, -1
+	r.inCall = true
 }
 
 func (r *fsRig) end() []fsLabel {
 	r.disarm()
+	r.inCall = false
 	ls := r.labels
 	r.labels, r.fault, r.curBytes = nil, nil, nil
 	return ls
@@ -573,6 +587,15 @@ func (r *fsRig) update(ctx context.Context, bases []string) fsCallResult {
 	err := r.store.Update(ctx, nil, dels)
 	ls := r.end()
 	return fsCallResult{labels: ls, err: err, faultIdx: -1}
+}
+
+// famFRoot picks the store's root directory below scratch. The store derives every path it touches
+// from the root and the pointer by string surgery on ".dat"/".tmp", so the root itself comes in
+// layouts whose own components contain those extensions (plain about half of the time).
+func famFRoot(c *Ctx, scratch, stem string, i int) (string, string) {
+	layouts := []string{"%s%d", "%s%d", "%s%d", "%s%d.dat", "%s%d.tmp", "%s%d.data", "vol.dat.d/%s%d", "a.tmp.b.dat/%s%d.dat", ".dat%s%d", "%s%d.dat.tmp"}
+	l := layouts[c.intn(len(layouts))]
+	return filepath.Join(scratch, fmt.Sprintf(l, stem, i)), fmt.Sprintf(l, stem, 0)
 }
 
 // ---------------------------------------------------------------- observations
